@@ -24,7 +24,16 @@ CLAIMED = {
    text="The configuration lattice contains exactly the deciding cases (TLS-only list on a TLS-capable TCP transport); every client behaviour inside the bounds is replayed and the wire encryption of each envelope and callback is checked by TLC.", ref="DESIGN.md 5 (C10)", note=HS_NOTE),
  "C14": dict(engine="hs-server", tech="TLA+ model HsServer.tla (Server flavour: handleChannel epilogue) + replay against a real Server on loopback TCP + TLC monitor HsObs (C14_Released)",
    text="Every non-establishing terminal behaviour of the handshake model is replayed against a real Server; closure within a bound, callbacks and goroutine census are checked.", ref="DESIGN.md 5 (C14)", note=HS_NOTE + " TCP listener only so far; release is asserted within a 1.5 s bound with the collector disabled."),
+   "C08": dict(engine="hs-client", tech="TLA+ model HsClient.tla checked by TLC; every generated server script replayed on the real ClientChannel in crash-isolating child processes; TLC monitor HsObs (C08_NoPanic, C08_Returns, C08_Truthful, C08_EchoId, C08_CredsOnlyOnRequest, C08_ClosesOnTerminal)",
+   text="Exhaustive TLC exploration of the client handshake model against a raw server alphabet (all seven states incl. regressions, id variants, option/confirmation/scheme variants, round-trip data, data, garbage, disconnect) to a depth bound; every maximal behaviour is replayed on the real ClientChannel over the real TCP transport and its history checked by TLC against the same operators.", ref="DESIGN.md 3.1, 5 (C08)",
+   note="Assumes selector/authenticator callbacks return normally; TLC result holds inside MaxIn and the raw-server alphabet of HsClient.tla; a panic on a library goroutine is observed as the death of the replaying child process; trusted: TLC, CommunityModules Json, Go runtime, crypto/tls, encoding/json."),
 }
+CLAIMED["C06"]["engine"] = "hs-server+hs-client"
+CLAIMED["C06"]["note"] = HS_NOTE + " Both roles: server role on HsServer behaviours, client role on HsClient behaviours."
+CLAIMED["C06"]["tech"] += " and HsClient.tla + C06_ClientSendGuard for the client role"
+CLAIMED["C09"]["engine"] = "hs-server+hs-client"
+CLAIMED["C09"]["note"] = HS_NOTE + " Library server against scripted client and library client against scripted server."
+CLAIMED["C09"]["tech"] += " and HsClient.tla + C09_ClientUpgrade for the client role"
 
 checks = []
 for p in props:
@@ -52,6 +61,9 @@ m = {
            "baseline_off_cmd": "cd /repo && GOFLAGS=-mod=mod GOPROXY=off GOSUMDB=off GOTOOLCHAIN=local go test -json -vet=off -count=1 -timeout 25m ./...",
            "source_commits": hook_commits, "add_only": True},
  "engines": [
+   {"name": "hs-client", "path": "spec/HsClient.tla spec/HsClientMC.tla spec/HsProps.tla spec/HsObs.tla harness/hs/client.go tools/engines/hs_client.py",
+    "serves_properties": ["C08", "C06", "C09"],
+    "kind_free_text": "TLA+ model + TLC exhaustive check and behaviour generation, replay on the real ClientChannel in crash-isolating child processes, TLC trace monitor"},
    {"name": "hs-server", "path": "spec/HsServer.tla spec/HsServerMC.tla spec/HsProps.tla spec/HsObs.tla harness/hs tools/engines/hs_server.py",
     "serves_properties": ["C03", "C06", "C07", "C09", "C10", "C14"],
     "kind_free_text": "TLA+ model + TLC exhaustive check and behaviour generation, replay on real ServerChannel/Server, TLC trace monitor"},
